@@ -5,7 +5,7 @@ of the guppylang tree at `bootstrap.REPO`.
 Output (plain Python data, rendered to Lean by c32.translate):
 
   grammar   : [(kind, category, field, ftype, quant)]   from CPython's `ast` class docstrings (ASDL)
-  visits    : [(visitor, kind, how)]   how in explicit | raisesInternal | raisesUser
+  visits    : [(visitor, kind, how)]   how in explicit | identity (`return node`) | raisesInternal | raisesUser
   reads     : [(visitor, kind, field, how)]   how in read | guard   (visitor "aux" for product kinds)
   forwards  : [(visitor, kind)]        visit_K that may fall back to NodeTransformer.generic_visit
   generic   : [(visitor, how)]         how in rejects | forwards | fallback | other
@@ -414,10 +414,14 @@ class Analysis:
                 if kind is None or self.kinds.get(kind) not in ("stmt", "expr"):
                     continue  # Guppy-internal node (MakeIter, PlaceNode, …): not Python syntax
                 rk = self._raise_kind(fn)
-                self.visits.append((V, kind, rk if rk in ("raisesInternal", "raisesUser") else "explicit"))
-                if rk:
-                    continue
                 params = [a.arg for a in fn.args.args][1:]
+                body = self._body(fn)
+                ident = (len(body) == 1 and isinstance(body[0], ast.Return) and isinstance(body[0].value, ast.Name)
+                         and params and body[0].value.id == params[0])
+                how = rk if rk in ("raisesInternal", "raisesUser") else ("identity" if ident else "explicit")
+                self.visits.append((V, kind, how))
+                if rk or ident:
+                    continue
                 if not params:
                     continue
                 node_param = params[0]
